@@ -16,7 +16,7 @@ import (
 
 // C17 — either / botheq groups are judged per object, all-empty and all-equal.
 
-var c17MemberTypes = []reflect.Type{gen.TString, gen.TString, gen.TInt, gen.TInt32, gen.TUint8, gen.TFloat64, gen.TBool, gen.TInt64, gen.TUint64, reflect.TypeOf([]int(nil)), reflect.TypeOf([]string(nil))}
+var c17MemberTypes = []reflect.Type{gen.TString, gen.TString, gen.TInt, gen.TInt32, gen.TUint8, gen.TFloat64, gen.TBool, gen.TInt64, gen.TUint64, reflect.PointerTo(gen.TString), reflect.PointerTo(gen.TInt32), reflect.TypeOf([]int(nil)), reflect.TypeOf([]string(nil))}
 
 // c17Type builds a struct type with 2-6 group-tagged fields in 1-3 groups; the members of one
 // botheq group share a type. Returns the type and, per field, its group index (-1 = plain field).
@@ -54,6 +54,17 @@ func c17Type(rng *rand.Rand, id int) (reflect.Type, []int) {
 			ft = c17MemberTypes[rng.Intn(len(c17MemberTypes))] // either members may differ in type
 		}
 		rule := gr.text
+		if nGroups >= 2 && rng.Intn(5) == 0 {
+			// the field is also a member of another group (of whatever kind that one is)
+			o := groups[(gi+1)%nGroups]
+			if o.kind == "either" || o.t == ft {
+				if rng.Intn(2) == 0 {
+					rule = rule + "," + o.text
+				} else {
+					rule = o.text + "," + rule
+				}
+			}
+		}
 		switch rng.Intn(5) {
 		case 0:
 			rule = "required|m_r," + rule
@@ -96,6 +107,17 @@ func c17Value(rng *rand.Rand, t reflect.Type, gidx []int) (reflect.Value, string
 			f.SetFloat(float64(k) / 2)
 		case reflect.Bool:
 			f.SetBool(k%2 == 1)
+		case reflect.Ptr: // a fresh pointer for every member: equal values live at different addresses
+			if k == 0 {
+				return
+			}
+			p := reflect.New(f.Type().Elem())
+			if p.Elem().Kind() == reflect.String {
+				p.Elem().SetString([]string{"", "a", "b", "ab", "测"}[k%5])
+			} else {
+				p.Elem().SetInt(int64(k))
+			}
+			f.Set(p)
 		case reflect.Slice:
 			if k == 0 {
 				return
